@@ -934,7 +934,54 @@ func c13gAddEdge(c *c13gCase, u int, name string, v int) bool {
 // in-degree restrictions that keep the data meaningful: a note lives in exactly one owner's slice, an aide has one owner
 func c13gExclusive(t string) bool { return t == "note" || t == "aide" }
 
+// Association(rel).Append(values...) on an existing owner whose in-memory field already holds some records
+func c13gGenAppend(rng *rand.Rand) c13gCase {
+	rels := []string{"Peers", "Subs", "Places"}
+	rel := rels[rng.Intn(len(rels))]
+	tt := "node"
+	if rel == "Places" {
+		tt = "place"
+	}
+	c := c13gCase{Family: "append", Op: "append", Roots: []int{0}, AppendRel: rel}
+	c.Nodes = []c13gNode{{T: "node", Key: 100}}
+	held, added := rng.Intn(3), 1+rng.Intn(3)
+	for i := 0; i < held+added; i++ {
+		n := c13gNode{T: tt}
+		if rng.Intn(2) == 0 {
+			n.Key = 200 + i
+		}
+		c.Nodes = append(c.Nodes, n)
+		if i < held {
+			c13gAddEdge(&c, 0, rel, 1+i)
+		} else {
+			c.AppendVals = append(c.AppendVals, 1+i)
+		}
+	}
+	switch rng.Intn(5) {
+	case 0: // a record that is already a member is appended again
+		if held > 0 {
+			c.AppendVals = append(c.AppendVals, 1)
+			c.Family = "append-member"
+		}
+	case 1: // the same value twice
+		c.AppendVals = append(c.AppendVals, c.AppendVals[0])
+		c.Family = "append-twice"
+	case 2: // the appended records have associations of their own (not saved: Select(<relation>) restricts)
+		if tt == "node" {
+			c13gAddEdge(&c, c.AppendVals[0], "Peers", c.AppendVals[len(c.AppendVals)-1])
+			c.Family = "append-deep"
+		}
+	}
+	if rng.Intn(4) == 0 {
+		c.Ctx = "usertx"
+	}
+	return c
+}
+
 func c13gGen(rng *rand.Rand, maxN int) c13gCase {
+	if rng.Intn(12) == 0 {
+		return c13gGenAppend(rng)
+	}
 	c := c13gCase{}
 	ops := []string{"create", "create", "createslice", "save", "save", "updates", "updates-full", "create-full"}
 	c.Op = ops[rng.Intn(len(ops))]
